@@ -329,7 +329,15 @@ def check_translation(prop, spec):
         missing = [t for t in spec["theorems"] if not re.search(r"(Theorem|Lemma)\s+%s\b" % re.escape(t), ptext)]
         det.update({"theorems": [t for t in spec["theorems"] if t not in missing], "missing": missing,
                     "print_assumptions": n_print, "closed": closed})
-        return (not missing) and closed == n_print and n_print >= len(spec["theorems"]) and "Axioms:" not in r.stdout, det
+        ok = (not missing) and closed == n_print and n_print >= len(spec["theorems"]) and "Axioms:" not in r.stdout
+        if ok and os.environ.get("VERIF_TIER_RUNNING") == "thorough":
+            # independent re-check of the equivalence proofs, the generated definitions and everything they depend on
+            rc = subprocess.run(["timeout", "2400", "coqchk", "-o"] + args + ["RMG." + spec["proofs"][:-2]], cwd=COQ,
+                                stdout=subprocess.PIPE, stderr=subprocess.STDOUT, text=True)
+            m = re.search(r"\* Axioms:\s*(.*?)\n\s*\n", rc.stdout, flags=re.S)
+            det["coqchk"] = {"rc": rc.returncode, "axioms": (m.group(1).strip() if m else "?")}
+            ok = rc.returncode == 0 and det["coqchk"]["axioms"] == "<none>"
+        return ok, det
     finally:
         shutil.rmtree(d, ignore_errors=True)
 
